@@ -81,7 +81,8 @@ def obsS (T : Tun) (ob : Obj) (mark : String := "") : String :=
   let m := (if bad then " L1!=L2" else "") ++ mark
   s!"S {fmtW ob.wty s.total} {fmtW ob.wty s.offset} {s.map.length} {boolStr (isEmpty s)} {epsHex T s.lgMax}{m}"
 
-def chooseWith (hint : Option Nat) (med : Nat) : Nat :=
+def chooseWith (hint : Option Nat) (sample : List Nat) : Nat :=
+  let med := medianOf sample
   match hint with
   | some h => if 0 < h && h ≤ med then h else med
   | none => med
@@ -119,49 +120,38 @@ def doUpd (T : Tun) (ob : Obj) (item : String) (w : Nat) (hint : Option Nat) : O
     let a :=
       if purges T ob.l1 item w then
         let m' := adjust ob.l1.map item w
-        if m'.length ≤ T.maxSample then chooseWith hint (purgeAmountAll m') else hint.getD 0
+        if m'.length ≤ T.maxSample then chooseWith hint (vals m') else hint.getD 0
       else 0
     some { ob with l1 := update T ob.l1 item w a, l2 := none }
 
-/-- descending list of the distinct sample values `≤ med` (candidate purge amounts of one purge) -/
-def candidates (sample : List Nat) (med : Nat) : List Nat :=
-  ((sortNat sample).filter (fun v => 0 < v && v ≤ med)).eraseDups.reverse
+/-- purge amount = element of rank `min r (n/2)` of the sample (r ≥ n/2: the code's median) -/
+def chooseRank (r : Nat) (sample : List Nat) : Nat :=
+  (sortNat sample).getD (min r (sample.length / 2)) 0
 
-/-- Angelic resolution of the purge amounts INSIDE a merge (they are not observable one by one): find amounts,
-    each `≤` the median of the code's sample at that purge, that add up to `remaining` (= observed offset delta
-    minus the operand's offset). The all-medians choice is tried first. `fuel` bounds the number of visited nodes. -/
-partial def mergeSearch (T : Tun) (s : St2) (ents : List (Nat × Nat)) (log : List (Ent Nat)) (remaining : Nat)
-    (fuel : Nat) : Option (St2 × List (Ent Nat)) × Nat :=
-  if fuel = 0 then (none, 0) else
-  match ents with
-  | [] => (if remaining = 0 then some (s, log) else none, fuel - 1)
-  | (k, w) :: t =>
-    let (sMed, aMed) := update2 T idHash id s k w
-    if aMed = 0 then mergeSearch T sMed t ((k, w, 0) :: log) remaining (fuel - 1)
-    else
-      let t1 := (s.tab.internalAdjustOrInsert idHash k w).1
-      let rec tryAll (cs : List Nat) (fuel : Nat) : Option (St2 × List (Ent Nat)) × Nat :=
-        match cs with
-        | [] => (none, fuel)
-        | a :: cs' =>
-          if a > remaining then tryAll cs' fuel else
-          let (s', _) := update2 T idHash (fun _ => a) s k w
-          match mergeSearch T s' t ((k, w, a) :: log) (remaining - a) (fuel - 1) with
-          | (some r, f) => (some r, f)
-          | (none, f) => if f = 0 then (none, 0) else tryAll cs' f
-      tryAll (candidates (t1.sample T) aMed) (fuel - 1)
+/-- Angelic resolution of the purge amounts INSIDE a merge (they are not observable one by one): the implementation
+    may use any fixed order statistic at or below the median (hypothesis of `fi_epsilon`). Try the median first, then
+    lower ranks, until the replay explains the observed offset delta. -/
+def explains (m : St2) (target : Nat) (nact sumLb : Option Nat) : Bool :=
+  m.offset = target && (nact.isNone || nact == some m.tab.numActive) &&
+  (sumLb.isNone || sumLb == some (sumVals m.tab.entries))
 
-def doMerge (T : Tun) (d s : Obj) (hint : Option Nat) : Obj × String :=
+def mergeByRank (T : Tun) (d2 s2 : St2) (target : Nat) (nact sumLb : Option Nat) : Nat → Option (St2 × List (Ent Nat))
+  | 0 => none
+  | r + 1 =>
+    let (m, log) := merge2 T idHash (chooseRank r) d2 s2
+    if explains m target nact sumLb then some (m, log)
+    else mergeByRank T d2 s2 target nact sumLb r
+
+def doMerge (T : Tun) (d s : Obj) (hint : Option Nat) (nact sumLb : Option Nat) : Obj × String :=
   match d.l2, s.l2 with
   | some d2, some s2 =>
-    let (r2, log) := merge2 T idHash id d2 s2
-    -- observed offset delta that the all-medians replay does not explain: search the purge amounts
+    let (r2, log) := merge2 T idHash medianOf d2 s2
     let (r2, log) :=
       match hint with
       | some dl =>
-        if s2.tab.numActive = 0 || r2.offset = d2.offset + dl || dl < s2.offset then (r2, log) else
-        match (mergeSearch T d2 (s2.tab.iterOrder T) [] (dl - s2.offset) 20000).1 with
-        | some (r, lg) => ({ r with offset := r.offset + s2.offset, total := d2.total + s2.total }, lg.reverse)
+        if s2.tab.numActive = 0 || explains r2 (d2.offset + dl) nact sumLb then (r2, log) else
+        match mergeByRank T d2 s2 (d2.offset + dl) nact sumLb (min 64 ((capacity T d2.tab.lgMax + 1) / 2)) with
+        | some r => r
         | none => (r2, log)
       | none => (r2, log)
     let ents : List (Ent String) := log.map (fun e => (toString e.1, e.2.1, e.2.2))
@@ -184,6 +174,11 @@ def thrOf (ob : Obj) (spec : String) : Option Nat :=
     | _ => none
 
 def stepLine (T : Tun) (o : Objs) (w : List String) : Objs × String :=
+  -- the rvalue overloads behave like the lvalue ones
+  let w := match w with
+    | "updmv" :: t => "upd" :: t
+    | "mergemv" :: t => "merge" :: t
+    | _ => w
   match w with
   | ["new", id, wty, ity, lgmax, lgstart] =>
     let wt := match wty with | "u64" => some WTy.u64 | "i64" => some WTy.i64 | "f64" => some WTy.f64 | _ => none
@@ -215,7 +210,8 @@ def stepLine (T : Tun) (o : Objs) (w : List String) : Objs × String :=
       match o.get' d, o.get' s with
       | some dob, some sob =>
         if dob.wty != sob.wty || dob.ity != sob.ity then (o, "bad-op") else
-        let (ob', mark) := doMerge T dob sob (parseHint dob.wty rest)
+        let (ob', mark) := doMerge T dob sob (parseHint dob.wty (rest.take 1)) ((rest.drop 1).head? >>= String.toNat?)
+          (parseHint dob.wty (rest.drop 2))
         (o.set' d ob', obsS T ob' mark)
       | _, _ => (o, "throw")
     | _, _ => (o, "bad-op")
